@@ -548,6 +548,8 @@ impl<T> Bucket<T> {
         }
         #[cfg(nucleo_verif)]
         crate::verif::hb::region_init(entries as usize, arr_layout.size());
+        #[cfg(nucleo_verif)]
+        crate::verif::hb::region_stride(entries as usize, layout.size());
         entries as *mut Entry<T>
     }
 
